@@ -10,19 +10,73 @@
      line_spec p env = concat (map (subst env) p) ++ "\n", subst env (Attr a sp) =
      apply_spec (fspec sp) (env a).
      wf p := attributes pairwise distinct /\ literals without '{' '}' "%(" /\ specs without
-     ')' '{' '}' "%(" /\ normal form (the text between two attributes is one Lit item). *)
+     ')' '{' '}' "%(" /\ normal form (the text between two attributes is one Lit item).
+     wfg p := the same with ANY braces in the literal text (still no "%(").
+     v : pvar = the variant of the code the model stands for (PatModel.v):
+       pv_bits v = width of MacroMetadata::_colon_separator_pos / _file_name_pos (16 = the pinned
+                   uint16_t, >= 64 = size_t);   pv_esc v = _generate_fmt_format_string doubles the
+                   braces of the literal text before the attributes are rewritten.
+       pv_pinned = (16, false), pv_repaired = (64, true);  TieC12.src_variant = the variant read
+       from the T-src facts of the checked tree;  wfv v p = if pv_esc v then wfg p else wf p.
+     Statements with "forall v" hold for every variant; the refutations name the variant. *)
 From Coq Require Import List NArith Bool.
-From Quill Require Import Format.PatFmt Format.PatModel Format.PatProofs.
+From Quill Require Import Format.PatFmt Format.PatModel Format.PatProofs TieC12.
 Import ListNotations.
+
+(* ---- T-src: the variant of the checked tree (size_t positions, literal braces doubled); the
+   methods are the ones the model was written against ---- *)
+Theorem C12_tie_mm_positions_size_t : QuillGen.SrcFacts.mm_pos_bits = 64%N.
+Proof. exact src_mm_pos_bits. Qed.
+Print Assumptions C12_tie_mm_positions_size_t.
+
+Theorem C12_tie_literal_braces_escaped : QuillGen.SrcFacts.pf_escapes_literal_braces = true.
+Proof. exact src_pf_escapes_literal_braces. Qed.
+Print Assumptions C12_tie_literal_braces_escaped.
+
+Theorem C12_tie_variant : src_variant = pv_repaired.
+Proof. exact src_variant_repaired. Qed.
+Print Assumptions C12_tie_variant.
+
+Theorem C12_tie_skeletons :
+  QuillGen.SrcFacts.sk_c12_mm_calc_file_name_pos = exp_c12_mm_calc_file_name_pos /\
+  QuillGen.SrcFacts.sk_c12_mm_calc_colon_separator_pos = exp_c12_mm_calc_colon_separator_pos /\
+  QuillGen.SrcFacts.sk_c12_mm_line = exp_c12_mm_line /\
+  QuillGen.SrcFacts.sk_c12_mm_full_path = exp_c12_mm_full_path /\
+  QuillGen.SrcFacts.sk_c12_mm_file_name = exp_c12_mm_file_name /\
+  QuillGen.SrcFacts.sk_c12_mm_short_source_location = exp_c12_mm_short_source_location /\
+  QuillGen.SrcFacts.sk_c12_pf_generate_fmt_format_string = exp_c12_pf_generate_fmt_format_string.
+Proof. exact c12_skeletons_ok. Qed.
+Print Assumptions C12_tie_skeletons.
 
 (* ---- creation: the rewriting of a printed pattern (the re-scan from position 0 after each
    replacement skips the already rewritten prefix, which may contain and end in '%') ---- *)
-Theorem C12_gen_print : forall p, wf p -> generate (print p) = GOk (gen_of p).
+Theorem C12_gen_print : forall v p, wf p -> generate v (print p) = GOk (gen_of p).
 Proof. exact gen_print. Qed.
 Print Assumptions C12_gen_print.
 
+(* literal text with braces, on the code that doubles them: the attributes are rewritten as
+   before and every brace of the literal text arrives doubled (esc_pat p) ... *)
+Theorem C12_gen_print_braces : forall v p, pv_esc v = true -> wfg p ->
+  generate v (print p) = GOk (gen_of (esc_pat p)).
+Proof. exact gen_print_esc. Qed.
+Print Assumptions C12_gen_print_braces.
+
+(* ... because the pre-pass is exactly "double the braces of the literal items" on a printed
+   pattern (it skips each %(...) up to its ')', and a literal '%' in front of an attribute) *)
+Theorem C12_escape_prepass : forall p, wfg p -> esc_scan false (print p) = print (esc_pat p).
+Proof. exact (fun p H => esc_scan_print_nil p (proj1 (proj2 H)) (proj2 (proj2 H))). Qed.
+Print Assumptions C12_escape_prepass.
+
+(* brace-free literal text: the pre-pass changes nothing (patterns that worked keep their fmt string) *)
+Theorem C12_escape_prepass_identity : forall p, wf p -> esc_scan false (print p) = print p.
+Proof.
+  exact (fun p H => eq_trans (esc_scan_print_nil p (proj1 (proj2 (wf_wfg p H))) (proj2 (proj2 H)))
+                             (f_equal print (esc_pat_wf p (proj1 (proj2 H))))).
+Qed.
+Print Assumptions C12_escape_prepass_identity.
+
 (* the explicit fuel of the re-scan is never exhausted, for any pattern text whatsoever *)
-Theorem C12_generate_total : forall s, generate s <> GErr GE_fuel.
+Theorem C12_generate_total : forall v s, generate v s <> GErr GE_fuel.
 Proof. exact generate_fuel_ok. Qed.
 Print Assumptions C12_generate_total.
 
@@ -32,33 +86,55 @@ Theorem C12_line : forall apply_spec p env, wf p -> print p <> [] ->
 Proof. exact format_env_line. Qed.
 Print Assumptions C12_line.
 
+(* literal text with any braces, formatter of the code that doubles them: the braces are rendered
+   as written *)
+Theorem C12_line_braces : forall apply_spec p env, wfg p -> print p <> [] ->
+  format_env apply_spec (gen_of (esc_pat p)) env = FOk (line_spec apply_spec p env).
+Proof. exact format_env_line_esc. Qed.
+Print Assumptions C12_line_braces.
+
 (* creation and formatting together, on statements (env_of st = the sixteen values of st) *)
-Theorem C12_line_created : forall apply_spec p, wf p -> print p <> [] ->
-  exists g, generate (print p) = GOk g /\
-            forall st, format apply_spec g st = FOk (line_spec apply_spec p (env_of st)).
+Theorem C12_line_created : forall v apply_spec p, wf p -> print p <> [] ->
+  exists g, generate v (print p) = GOk g /\
+            forall st, format v apply_spec g st = FOk (line_spec apply_spec p (env_of v st)).
 Proof. exact line_created. Qed.
 Print Assumptions C12_line_created.
 
+(* ... for the valid patterns of each variant (wfv: with the braces doubled, any literal text) *)
+Theorem C12_line_created_variant : forall v apply_spec p, wfv v p -> print p <> [] ->
+  exists g, generate v (print p) = GOk g /\
+            forall st, format v apply_spec g st = FOk (line_spec apply_spec p (env_of v st)).
+Proof. exact line_created_v. Qed.
+Print Assumptions C12_line_created_variant.
+
+(* ... and for the variant the source selects: arbitrary literal text (no "%(") *)
+Theorem C12_line_created_code_variant : forall apply_spec p, wfg p -> print p <> [] ->
+  exists g, generate src_variant (print p) = GOk g /\
+            forall st, format src_variant apply_spec g st
+                       = FOk (line_spec apply_spec p (env_of src_variant st)).
+Proof. exact line_created_code. Qed.
+Print Assumptions C12_line_created_code_variant.
+
 (* item lists that are not in normal form: adjacent literals are merged first *)
 Theorem C12_line_normalized : forall apply_spec p, wf (normalize p) -> print p <> [] ->
-  exists g, generate (print p) = GOk g /\
+  forall v, exists g, generate v (print p) = GOk g /\
             forall env, format_env apply_spec g env = FOk (line_spec apply_spec p env).
 Proof. exact line_created_normalized. Qed.
 Print Assumptions C12_line_normalized.
 
 (* which value stands for which attribute *)
-Theorem C12_env_fields : forall st,
-  env_of st Time = s_time st /\ env_of st LogLevel = s_level st /\
-  env_of st LogLevelShortCode = s_short st /\ env_of st Logger = s_logger st /\
-  env_of st ThreadId = s_thread_id st /\ env_of st ThreadName = s_thread_name st /\
-  env_of st ProcessId = s_process_id st /\ env_of st CallerFunction = s_func st /\
-  env_of st Message = s_msg st /\
-  env_of st Tags = match s_tags st with Some t => t | None => [] end /\
-  env_of st NamedArgs = match s_nargs st with Some l => join_nargs l | None => [] end /\
-  env_of st SourceLocation = s_srcloc st /\
-  env_of st FullPath = mm_full_path (s_srcloc st) /\ env_of st LineNumber = mm_line (s_srcloc st) /\
-  env_of st FileName = mm_file_name (s_srcloc st) /\
-  env_of st ShortSourceLocation = mm_short_source_location (s_srcloc st).
+Theorem C12_env_fields : forall v st,
+  env_of v st Time = s_time st /\ env_of v st LogLevel = s_level st /\
+  env_of v st LogLevelShortCode = s_short st /\ env_of v st Logger = s_logger st /\
+  env_of v st ThreadId = s_thread_id st /\ env_of v st ThreadName = s_thread_name st /\
+  env_of v st ProcessId = s_process_id st /\ env_of v st CallerFunction = s_func st /\
+  env_of v st Message = s_msg st /\
+  env_of v st Tags = match s_tags st with Some t => t | None => [] end /\
+  env_of v st NamedArgs = match s_nargs st with Some l => join_nargs l | None => [] end /\
+  env_of v st SourceLocation = s_srcloc st /\
+  env_of v st FullPath = mm_full_path v (s_srcloc st) /\ env_of v st LineNumber = mm_line v (s_srcloc st) /\
+  env_of v st FileName = mm_file_name v (s_srcloc st) /\
+  env_of v st ShortSourceLocation = mm_short_source_location v (s_srcloc st).
 Proof. exact env_of_fields. Qed.
 Print Assumptions C12_env_fields.
 
@@ -79,35 +155,51 @@ Proof. exact slot_injective. Qed.
 Print Assumptions C12_slot_injective.
 
 (* ---- rejection when the formatter is created ---- *)
-Theorem C12_gen_rejects_unterminated : forall p rest, wf p -> ~ In c_rp rest ->
-  generate (print p ++ [c_pct; c_lp] ++ rest) = GErr GE_unterminated.
+(* (for every variant; the well-formed prefix may hold braces in its literal text) *)
+Theorem C12_gen_rejects_unterminated : forall v p rest, wfg p -> ~ In c_rp rest ->
+  generate v (print p ++ [c_pct; c_lp] ++ rest) = GErr GE_unterminated.
 Proof. exact gen_rejects_unterminated. Qed.
 Print Assumptions C12_gen_rejects_unterminated.
 
-Theorem C12_gen_rejects_unknown : forall p name sp post, wf p ->
+Theorem C12_gen_rejects_unknown : forall v p name sp post, wfg p ->
   ~ In c_rp name -> ~ In c_colon name -> attr_of_name name = None -> ~ In c_rp (fspec sp) ->
-  generate (print p ++ [c_pct; c_lp] ++ name ++ fspec sp ++ [c_rp] ++ post) = GErr (GE_unknown name).
+  generate v (print p ++ [c_pct; c_lp] ++ name ++ fspec sp ++ [c_rp] ++ post) = GErr (GE_unknown name).
 Proof. exact gen_rejects_unknown. Qed.
 Print Assumptions C12_gen_rejects_unknown.
 
 (* ---- multi-line messages ---- *)
 (* option on, no named args: one complete line per message line (segments between newlines
    without a final empty segment; an empty message is one statement) *)
-Theorem C12_multiline_on : forall apply_spec p st, wf p -> print p <> [] ->
+Theorem C12_multiline_on : forall v apply_spec p st, wf p -> print p <> [] ->
   nargs_empty (s_nargs st) = true ->
-  sink_lines apply_spec true (gen_of p) st =
-  Some (map (fun m => FOk (line_spec apply_spec p (env_of (with_msg st m))))
+  sink_lines v apply_spec true (gen_of p) st =
+  Some (map (fun m => FOk (line_spec apply_spec p (env_of v (with_msg st m))))
             (match s_msg st with [] => [[]] | _ => drop_last_empty (split_on c_nl (s_msg st)) end)).
 Proof. exact sink_lines_on. Qed.
 Print Assumptions C12_multiline_on.
 
+Theorem C12_multiline_on_braces : forall v apply_spec p st, wfg p -> print p <> [] ->
+  nargs_empty (s_nargs st) = true ->
+  sink_lines v apply_spec true (gen_of (esc_pat p)) st =
+  Some (map (fun m => FOk (line_spec apply_spec p (env_of v (with_msg st m))))
+            (match s_msg st with [] => [[]] | _ => drop_last_empty (split_on c_nl (s_msg st)) end)).
+Proof. exact sink_lines_on_esc. Qed.
+Print Assumptions C12_multiline_on_braces.
+
 (* option off (or named args present): a single statement, at most one trailing newline removed *)
-Theorem C12_multiline_off : forall apply_spec add_meta p st, wf p -> print p <> [] ->
+Theorem C12_multiline_off : forall v apply_spec add_meta p st, wf p -> print p <> [] ->
   add_meta && nargs_empty (s_nargs st) = false ->
-  sink_lines apply_spec add_meta (gen_of p) st =
-  Some [FOk (line_spec apply_spec p (env_of (with_msg st (strip_one_nl (s_msg st)))))].
+  sink_lines v apply_spec add_meta (gen_of p) st =
+  Some [FOk (line_spec apply_spec p (env_of v (with_msg st (strip_one_nl (s_msg st)))))].
 Proof. exact sink_lines_off. Qed.
 Print Assumptions C12_multiline_off.
+
+Theorem C12_multiline_off_braces : forall v apply_spec add_meta p st, wfg p -> print p <> [] ->
+  add_meta && nargs_empty (s_nargs st) = false ->
+  sink_lines v apply_spec add_meta (gen_of (esc_pat p)) st =
+  Some [FOk (line_spec apply_spec p (env_of v (with_msg st (strip_one_nl (s_msg st)))))].
+Proof. exact sink_lines_off_esc. Qed.
+Print Assumptions C12_multiline_off_braces.
 
 Theorem C12_strip_one_newline : forall msg,
   (exists m, msg = m ++ [c_nl] /\ strip_one_nl msg = m) \/
@@ -122,19 +214,51 @@ Proof. exact (fun msg => conj (split_on_segments c_nl msg) (split_on_join c_nl m
 Print Assumptions C12_split_lines_spec.
 
 (* ---- MacroMetadata derived fields; runtime-metadata split ---- *)
-Theorem C12_mm_fields : forall dir fname line,
+(* size_t position members (pv_bits >= 64, the repaired code): every source location, of any
+   length *)
+Theorem C12_mm_fields : forall v dir fname line,
+  (64 <= pv_bits v)%N ->
   (dir = [] \/ exists d, dir = d ++ [c_slash]) ->
   ~ In c_slash fname -> ~ In c_slash line -> ~ In c_colon line ->
   let sl := dir ++ fname ++ [c_colon] ++ line in
-  (N.of_nat (length sl) < 65536)%N ->
   mm_source_location sl = (dir ++ fname) ++ [c_colon] ++ line /\
-  mm_full_path sl = dir ++ fname /\
-  mm_line sl = line /\
-  mm_file_name sl = fname /\
-  mm_short_source_location sl = fname ++ [c_colon] ++ line /\
-  mm_in_bounds sl = true.
-Proof. exact mm_fields. Qed.
+  mm_full_path v sl = dir ++ fname /\
+  mm_line v sl = line /\
+  mm_file_name v sl = fname /\
+  mm_short_source_location v sl = fname ++ [c_colon] ++ line /\
+  mm_in_bounds v sl = true.
+Proof. exact mm_fields_wide. Qed.
 Print Assumptions C12_mm_fields.
+
+(* ... for the variant the source selects *)
+Theorem C12_mm_fields_code_variant : forall dir fname line,
+  (dir = [] \/ exists d, dir = d ++ [c_slash]) ->
+  ~ In c_slash fname -> ~ In c_slash line -> ~ In c_colon line ->
+  let sl := dir ++ fname ++ [c_colon] ++ line in
+  mm_source_location sl = (dir ++ fname) ++ [c_colon] ++ line /\
+  mm_full_path src_variant sl = dir ++ fname /\
+  mm_line src_variant sl = line /\
+  mm_file_name src_variant sl = fname /\
+  mm_short_source_location src_variant sl = fname ++ [c_colon] ++ line /\
+  mm_in_bounds src_variant sl = true.
+Proof. exact mm_fields_code. Qed.
+Print Assumptions C12_mm_fields_code_variant.
+
+(* members of any narrower width (16: the pinned uint16_t; 32: uint32_t): the source locations
+   shorter than 2^width.  fits v n := 64 <= pv_bits v \/ n < 2 ^ pv_bits v *)
+Theorem C12_mm_fields_any_width : forall v dir fname line,
+  (dir = [] \/ exists d, dir = d ++ [c_slash]) ->
+  ~ In c_slash fname -> ~ In c_slash line -> ~ In c_colon line ->
+  let sl := dir ++ fname ++ [c_colon] ++ line in
+  fits v (N.of_nat (length sl)) ->
+  mm_source_location sl = (dir ++ fname) ++ [c_colon] ++ line /\
+  mm_full_path v sl = dir ++ fname /\
+  mm_line v sl = line /\
+  mm_file_name v sl = fname /\
+  mm_short_source_location v sl = fname ++ [c_colon] ++ line /\
+  mm_in_bounds v sl = true.
+Proof. exact mm_fields. Qed.
+Print Assumptions C12_mm_fields_any_width.
 
 Theorem C12_rt_split : forall msg file line func,
   find_sep msg = None -> find_sep file = None -> find_sep line = None ->
@@ -151,46 +275,65 @@ Print Assumptions C12_nonvacuous.
 
 (* ---- refutations: where the faithful model shows the unrestricted statement false ---- *)
 (* the empty pattern (wf) is special-cased by format(): empty string, no final newline *)
-Theorem C12_refuted_empty_pattern :
-  wf [] /\ generate (print []) = GOk (gen_of []) /\
+Theorem C12_refuted_empty_pattern : forall v,
+  wf [] /\ generate v (print []) = GOk (gen_of []) /\
   format_env id_spec (gen_of []) env0 = FOk [] /\
   format_env id_spec (gen_of []) env0 <> FOk (line_spec id_spec [] env0).
 Proof. exact empty_pattern_refuted. Qed.
 Print Assumptions C12_refuted_empty_pattern.
 
-(* braces in literal text are fmt syntax: "{{" is rendered "{", a lone "{" makes format() throw *)
+(* the PINNED variant (no pre-pass; finding C12-brace-literal, fixed): braces in literal text are
+   fmt syntax: "{{" is rendered "{", a lone "{" makes format() throw *)
 Theorem C12_refuted_brace_literal :
-  generate (print [Lit [c_lb; c_lb]; Attr Message None]) = GOk (gen_of [Lit [c_lb; c_lb]; Attr Message None]) /\
+  generate pv_pinned (print [Lit [c_lb; c_lb]; Attr Message None]) = GOk (gen_of [Lit [c_lb; c_lb]; Attr Message None]) /\
   format_env id_spec (gen_of [Lit [c_lb; c_lb]; Attr Message None]) env0
     = FOk (c_lb :: attr_name Message ++ [c_nl]) /\
   line_spec id_spec [Lit [c_lb; c_lb]; Attr Message None] env0
     = c_lb :: c_lb :: attr_name Message ++ [c_nl] /\
-  generate (print [Lit [c_lb]; Attr Message None]) = GOk (gen_of [Lit [c_lb]; Attr Message None]) /\
+  generate pv_pinned (print [Lit [c_lb]; Attr Message None]) = GOk (gen_of [Lit [c_lb]; Attr Message None]) /\
   format_env id_spec (gen_of [Lit [c_lb]; Attr Message None]) env0 = FErr FE_unmatched_rb.
 Proof. exact brace_literal_refuted. Qed.
 Print Assumptions C12_refuted_brace_literal.
 
+(* the same two patterns on the repaired variant: rendered as written *)
+Example C12_brace_literal_repaired :
+  (exists g, generate pv_repaired (print [Lit [c_lb; c_lb]; Attr Message None]) = GOk g /\
+             format_env id_spec g env0 = FOk (c_lb :: c_lb :: attr_name Message ++ [c_nl])) /\
+  (exists g, generate pv_repaired (print [Lit [c_lb]; Attr Message None]) = GOk g /\
+             format_env id_spec g env0 = FOk (c_lb :: attr_name Message ++ [c_nl])).
+Proof. exact brace_literal_repaired. Qed.
+Print Assumptions C12_brace_literal_repaired.
+
 (* an attribute used twice (excluded by the property): accepted, then format() throws *)
 Theorem C12_refuted_duplicate_attr :
-  let p := [Attr Message None; Lit [32%N]; Attr Message None] in
-  generate (print p) = GOk (gen_of p) /\
+  forall v, let p := [Attr Message None; Lit [32%N]; Attr Message None] in
+  generate v (print p) = GOk (gen_of p) /\
   format_env id_spec (gen_of p) env0 = FErr FE_arg_not_found.
 Proof. exact duplicate_attr_refuted. Qed.
 Print Assumptions C12_refuted_duplicate_attr.
 
-(* uint16_t positions: a source location of >= 65536 bytes gives wrong path / line *)
+(* the PINNED variant (uint16_t positions; finding C12-srcloc-64k, fixed): a source location of
+   >= 65536 bytes gives wrong path / line *)
 Theorem C12_refuted_long_source_location :
   let sl := long_path ++ [c_colon] ++ [49%N] in
-  mm_full_path sl = [] /\ mm_full_path sl <> long_path /\
-  N.of_nat (length (mm_line sl)) = 65537%N.
+  mm_full_path pv_pinned sl = [] /\ mm_full_path pv_pinned sl <> long_path /\
+  N.of_nat (length (mm_line pv_pinned sl)) = 65537%N.
 Proof. exact mm_long_path_refuted. Qed.
 Print Assumptions C12_refuted_long_source_location.
 
+(* the same source location with size_t positions *)
+Example C12_long_source_location_repaired : forall v, (64 <= pv_bits v)%N ->
+  let sl := long_path ++ [c_colon] ++ [49%N] in
+  mm_full_path v sl = long_path /\ mm_line v sl = [49%N] /\ mm_file_name v sl = long_path /\
+  mm_in_bounds v sl = true.
+Proof. exact mm_long_path_repaired. Qed.
+Print Assumptions C12_long_source_location_repaired.
+
 (* why wf asks for normal form: two adjacent literals can print as "%(" *)
 Theorem C12_adjacent_literals_need_normal_form :
-  let p := [Lit [c_pct]; Lit (c_lp :: attr_name Message ++ [c_rp])] in
+  forall v, let p := [Lit [c_pct]; Lit (c_lp :: attr_name Message ++ [c_rp])] in
   Forall wf_item p /\ NoDup (attrs p) /\
-  generate (print p) = GOk (gen_of [Attr Message None]) /\
+  generate v (print p) = GOk (gen_of [Attr Message None]) /\
   ~ Forall wf_item (normalize p).
 Proof. exact adjacent_literals_need_normal_form. Qed.
 Print Assumptions C12_adjacent_literals_need_normal_form.
@@ -203,22 +346,30 @@ Print Assumptions C12_adjacency_test.
 
 (* ---- more non-vacuity: the premises of the rejection, MacroMetadata and multi-line theorems
    are satisfiable, with the computed outcomes ---- *)
-Example C12_rejects_nonvacuous :
+Example C12_rejects_nonvacuous : forall v,
   ~ In c_rp ex_name /\ ~ In c_colon ex_name /\ attr_of_name ex_name = None /\
   ~ In c_rp (fspec (Some [62; 53]%N)) /\
-  generate (print ex_pat ++ [c_pct; c_lp] ++ ex_name ++ fspec (Some [62; 53]%N) ++ [c_rp] ++ [33%N])
+  generate v (print ex_pat ++ [c_pct; c_lp] ++ ex_name ++ fspec (Some [62; 53]%N) ++ [c_rp] ++ [33%N])
     = GErr (GE_unknown ex_name) /\
-  generate (print ex_pat ++ [c_pct; c_lp] ++ ex_name) = GErr GE_unterminated.
+  generate v (print ex_pat ++ [c_pct; c_lp] ++ ex_name) = GErr GE_unterminated.
 Proof. exact ex_unknown_name. Qed.
 Print Assumptions C12_rejects_nonvacuous.
 
 Example C12_mm_nonvacuous :
   (ex_dir = [] \/ exists d, ex_dir = d ++ [c_slash]) /\
   ~ In c_slash ex_fname /\ ~ In c_slash ex_line /\ ~ In c_colon ex_line /\
-  (N.of_nat (length (ex_dir ++ ex_fname ++ [c_colon] ++ ex_line)) < 65536)%N /\
-  mm_file_name (ex_dir ++ ex_fname ++ [c_colon] ++ ex_line) = ex_fname.
+  fits pv_pinned (N.of_nat (length (ex_dir ++ ex_fname ++ [c_colon] ++ ex_line))) /\
+  fits pv_repaired (N.of_nat (length (ex_dir ++ ex_fname ++ [c_colon] ++ ex_line))) /\
+  mm_file_name pv_pinned (ex_dir ++ ex_fname ++ [c_colon] ++ ex_line) = ex_fname /\
+  mm_file_name pv_repaired (ex_dir ++ ex_fname ++ [c_colon] ++ ex_line) = ex_fname.
 Proof. exact ex_mm. Qed.
 Print Assumptions C12_mm_nonvacuous.
+
+(* a JSON-like pattern {"level": "%(log_level)", "msg": "%(message)"}: literal text with braces,
+   valid for the variant that doubles them (wfg), outside wf *)
+Example C12_braces_nonvacuous : wfg ex_json_pat /\ print ex_json_pat <> [] /\ ~ wf ex_json_pat.
+Proof. exact ex_json_pat_wfg. Qed.
+Print Assumptions C12_braces_nonvacuous.
 
 Example C12_multiline_nonvacuous :
   nargs_empty None = true /\
